@@ -528,7 +528,7 @@ def _empty_result(ex, st: State, kind: str) -> Any:
 
 
 # ============================================================================= str.join / split / all / any
-joined = z3.Function("joined", M.S, Obj, M.S)      # sep.join(list)
+joined = M.joined      # sep.join(list)
 
 
 def str_join(ex, recv: Any, arg: Any, st: State) -> List[Tuple[State, Any]]:
@@ -539,17 +539,16 @@ def str_join(ex, recv: Any, arg: Any, st: State) -> List[Tuple[State, Any]]:
     j = z3.Int("jj")
     ex.used_assumptions.add("str.join: '' for an empty list; the single element for a one-element list; with an "
                             "empty separator and one-character elements the result has those characters in order")
+    jw = M.fresh("joinw", M.I)      # explicit witness instead of a nested quantifier
+    one = lambda t: z3.And(M.is_StrV(M.lat(lst, t)), z3.Length(M.sval(M.lat(lst, t))) == 1)
     st.assume(z3.Implies(n == 0, r == z3.StringVal("")),
               z3.Implies(n == 1, r == M.sval(M.lat(lst, 0))),
-              z3.Implies(z3.And(z3.Length(sep) == 0,
-                                z3.ForAll([j], z3.Implies(z3.And(0 <= j, j < n),
-                                                          z3.And(M.is_StrV(M.lat(lst, j)),
-                                                                 z3.Length(M.sval(M.lat(lst, j))) == 1)),
-                                          patterns=[M.lat(lst, j)])),
-                         z3.And(z3.Length(r) == n,
-                                z3.ForAll([j], z3.Implies(z3.And(0 <= j, j < n),
-                                                          z3.SubString(r, j, 1) == M.sval(M.lat(lst, j))),
-                                          patterns=[z3.SubString(r, j, 1)]))))
+              z3.Or(z3.Length(sep) != 0,
+                    z3.And(0 <= jw, jw < n, z3.Not(one(jw))),
+                    z3.And(z3.Length(r) == z3.If(n > 0, n, 0),
+                           z3.ForAll([j], z3.Implies(z3.And(0 <= j, j < n),
+                                                     z3.SubString(r, j, 1) == M.sval(M.lat(lst, j))),
+                                     patterns=[z3.SubString(r, j, 1)]))))
     # TypeError when an element is not a str
     bad = z3.Exists([j], z3.And(0 <= j, j < n, z3.Not(M.is_StrV(M.lat(lst, j)))))
     out = []
